@@ -302,6 +302,16 @@ def run(rep: Report) -> None:
                         if isinstance(d_, ast.Assign) and len(d_.targets) == 1 and isinstance(d_.targets[0], ast.Name) and d_.targets[0].id in names \
                                 and isinstance(d_.value, (ast.ListComp, ast.GeneratorExp)) and len(d_.value.generators) == 1 and not d_.value.generators[0].ifs:
                             names |= {x.id for x in ast.walk(d_.value.generators[0].iter) if isinstance(x, ast.Name)}
+                        # ... as is `L = []` filled by `for x in S: L.append(..)` (one unconditional append per element)
+                        if isinstance(d_, ast.For) and not d_.orelse and len(d_.body) == 1 and isinstance(d_.body[0], ast.Expr) \
+                                and isinstance(d_.body[0].value, ast.Call) and isinstance(d_.body[0].value.func, ast.Attribute) \
+                                and d_.body[0].value.func.attr == "append" and isinstance(d_.body[0].value.func.value, ast.Name) \
+                                and d_.body[0].value.func.value.id in names:
+                            lname = d_.body[0].value.func.value.id
+                            other_fill = [x for x in ast.walk(fi.node) if isinstance(x, ast.Call) and isinstance(x.func, ast.Attribute)
+                                          and isinstance(x.func.value, ast.Name) and x.func.value.id == lname and x.func.attr in ("pop", "remove", "clear")]
+                            if not other_fill:
+                                names |= {x.id for x in ast.walk(d_.iter) if isinstance(x, ast.Name)}
                 if isinstance(seq, (ast.ListComp, ast.GeneratorExp)) and len(seq.generators) == 1 and not seq.generators[0].ifs:
                     names |= {x.id for x in ast.walk(seq.generators[0].iter) if isinstance(x, ast.Name)}
                 cfg = cfg or CFG(fi.node)
